@@ -508,7 +508,25 @@ func errHandled(in ssa.Instruction) (bool, string) {
 					if x.Op == token.EQL {
 						succ = 1
 					}
+					// other tests of the same error value are taken consistently: their "is nil" edge is infeasible here
+					nilEdges := map[cfgEdge]bool{}
+					for _, r2 := range rs {
+						b2, ok := r2.(*ssa.BinOp)
+						if !ok || (b2.Op != token.NEQ && b2.Op != token.EQL) {
+							continue
+						}
+						for _, rr2 := range *b2.Referrers() {
+							if if2, ok := rr2.(*ssa.If); ok {
+								ns := 1
+								if b2.Op == token.EQL {
+									ns = 0
+								}
+								nilEdges[cfgEdge{if2.Block(), ns}] = true
+							}
+						}
+					}
 					q := &pathQ{fn: in.Parent(), fromEdges: []cfgEdge{{ifi.Block(), succ}},
+						barrier: func(b *ssa.BasicBlock, s int) bool { return nilEdges[cfgEdge{b, s}] },
 						to: func(i ssa.Instruction) bool {
 							r, ok := i.(*ssa.Return)
 							return ok && retKind(r) == "success"
